@@ -656,12 +656,11 @@ Proof.
   unfold parse_param. intros H. crush_H H.
 Qed.
 
-(* when the complete data ends here, so does the chopped data: the same exit *)
-Lemma step_chop_done r s F : step s = Done F -> step (chopS r s) = Done F.
+(* only the end of the data ends the loop *)
+Lemma step_done_eof s F : step s = Done F -> skip_ws_t (pdata s) = None.
 Proof.
-  destruct s as [d st m p t]. unfold chopS. cbn [pdata pst_ pmixed pparent ptape]. intros H.
-  assert (E0 : skip_ws_t d = None).
-  { unfold step in H. cbn [pdata pst_ pmixed pparent ptape] in H.
+  destruct s as [d st m p t]. cbn [pdata]. intros H.
+  unfold step in H. cbn [pdata pst_ pmixed pparent ptape] in H.
     destruct (skip_ws_t d) as [d0|]; [|reflexivity]. exfalso.
     destruct d0 as [|c d1]; [discriminate|].
     destruct st.
@@ -703,6 +702,283 @@ Proof.
       destruct (scalar_step _ _) as [[tok d']| | | |]; try discriminate.
       match type of H with context [Nat.ltb (length ?T) 2] => generalize dependent T end. intros t2 H.
       destruct (skip_ws_t d') as [[|c2 d3]|]; try discriminate.
-      destruct (Nat.ltb _ _); [discriminate|]. destruct (_ || _); destruct (tset _ _ _); discriminate. }
+      destruct (Nat.ltb _ _); [discriminate|]. destruct (_ || _); destruct (tset _ _ _); discriminate.
+Qed.
+
+(* when the complete data ends here, so does the chopped data: the same exit *)
+Lemma step_chop_done r s F : step s = Done F -> step (chopS r s) = Done F.
+Proof.
+  intros H. pose proof (step_done_eof _ _ H) as E0.
+  destruct s as [d st m p t]. unfold chopS. cbn [pdata pst_ pmixed pparent ptape] in *.
   rewrite <- H. apply step_same_skip. rewrite E0. apply skip_ws_t_chop_none. exact E0.
+Qed.
+
+(* ------------------------------------------------------------------ frozen tokens *)
+(* an open container holds the index of its parent (or 0) in its end slot: end <= own index;
+   a closed one has end > index *)
+Definition is_open (t : ttape) (i : nat) : bool :=
+  match nth_error t i with
+  | Some x => match cont_end x with Some e => Nat.leb e i | None => false end
+  | None => false
+  end.
+
+(* t' extends t: every token of t that is neither an open container nor the last token is still
+   there, at the same index *)
+Definition ext (t t' : ttape) : Prop :=
+  length t <= length t' /\
+  forall i, i + 1 < length t -> is_open t i = false -> nth_error t' i = nth_error t i.
+
+Lemma ext_refl t : ext t t.
+Proof. split; [lia|auto]. Qed.
+
+Lemma ext_trans a b c : ext a b -> ext b c -> ext a c.
+Proof.
+  intros [L1 H1] [L2 H2]. split; [lia|]. intros i Hi Ho.
+  rewrite <- (H1 i Hi Ho). apply H2; [lia|]. unfold is_open in *. rewrite (H1 i Hi Ho). exact Ho.
+Qed.
+
+Lemma tset_spec : forall t q x t', tset t q x = Some t' ->
+  length t' = length t /\ forall i, i <> q -> nth_error t' i = nth_error t i.
+Proof.
+  induction t as [|a t IH]; intros q x t' H; [destruct q; discriminate|].
+  destruct q as [|q]; cbn [tset] in H.
+  - injection H as <-. split; [reflexivity|]. intros [|i] Hi; [lia|reflexivity].
+  - destruct (tset t q x) as [r'|] eqn:E; [|discriminate]. injection H as <-.
+    destruct (IH _ _ _ E) as [L N]. split; [cbn [length]; lia|].
+    intros [|i] Hi; [reflexivity|]. cbn [nth_error]. apply N. lia.
+Qed.
+
+Lemma ext_tset t q x t' : tset t q x = Some t' -> length t <= q + 1 \/ is_open t q = true -> ext t t'.
+Proof.
+  intros H Hq. destruct (tset_spec _ _ _ _ H) as [L N]. split; [lia|].
+  intros i Hi Ho. apply N. intros ->. destruct Hq as [Hq|Hq]; [lia|congruence].
+Qed.
+
+Lemma ext_push t x : ext t (tpush t x).
+Proof.
+  unfold tpush. split; [rewrite app_length; lia|]. intros i Hi _. apply nth_error_app1. lia.
+Qed.
+
+Lemma ext_insert t x t' : tinsert_before_last t x = Some t' -> ext t t'.
+Proof.
+  unfold tinsert_before_last. destruct (length t) as [|n] eqn:L; [discriminate|]. intros H. injection H as <-.
+  split.
+  - rewrite app_length. cbn [length]. rewrite firstn_length, skipn_length. lia.
+  - intros i Hi _. rewrite nth_error_app1 by (rewrite firstn_length; lia).
+    apply nth_error_firstn_lt. lia.
+Qed.
+
+Lemma is_open_app t X i : i < length t -> is_open (t ++ X) i = is_open t i.
+Proof. intros H. unfold is_open. rewrite nth_error_app1 by exact H. reflexivity. Qed.
+
+Lemma chainrep_parent_open t p : chainrep t p -> p <> 0 -> is_open t p = true.
+Proof.
+  intros H Hp. destruct (chainrep_inv _ _ H) as [[-> _]|(t0 & p0 & c & V & -> & -> & H0 & N & Hc & _)]; [congruence|].
+  unfold is_open. rewrite nth_error_mid, Nat.ltb_irrefl, Nat.eqb_refl, Hc.
+  apply Nat.leb_le. pose proof (chainrep_nonnil_lt _ _ H0 N). lia.
+Qed.
+
+Lemma chainrep_open_app t p X : chainrep t p -> p <> 0 -> is_open (t ++ X) p = true.
+Proof.
+  intros H Hp. rewrite is_open_app; [apply chainrep_parent_open; assumption|].
+  apply chainrep_nonnil_lt; [exact H|].
+  destruct (chainrep_inv _ _ H) as [[-> _]|(t0 & p0 & c & V & -> & _)]; [congruence|]. destruct t0; discriminate.
+Qed.
+
+Lemma chainrep_pnz t p : chainrep t p -> ~ (p = 0 /\ slot t p = 0) -> p <> 0.
+Proof. intros H Hn ->. apply Hn. split; [reflexivity|]. eapply chainrep_slot0; eauto. Qed.
+
+Lemma andb_eqb_false p g : Nat.eqb p 0 && Nat.eqb g 0 = false -> ~ (p = 0 /\ g = 0).
+Proof. intros H [-> ->]. discriminate. Qed.
+
+Lemma parse_param_ext d p st t (initial : bool) s' :
+  parse_param d p st t initial = Next s' -> ext t (ptape s').
+Proof.
+  unfold parse_param. intros H. rewrite match_o91 in H.
+  destruct (nth_error d 1) as [c1|]; [|discriminate].
+  destruct (N.eqb c1 91); [|discriminate].
+  assert (exists t2 p2, (if initial
+        then match length t with
+             | 0 => None
+             | S ind => match tset t ind (TObject p false) with Some t' => Some (t', ind) | None => None end
+             end
+        else Some (t, p)) = Some (t2, p2) /\ ext t t2) as (t2 & p2 & E & Hx).
+  { destruct initial.
+    - destruct (length t) as [|ind] eqn:L; [discriminate|].
+      destruct (tset t ind (TObject p false)) as [t'|] eqn:Et; [|discriminate].
+      exists t', ind. split; [reflexivity|]. eapply ext_tset; [exact Et|left; lia].
+    - exists t, p. split; [reflexivity|apply ext_refl]. }
+  rewrite E in H. clear E.
+  crush_H H; injection H as <-; cbn [ptape];
+    repeat (eapply ext_trans; [|apply ext_push]); exact Hx.
+Qed.
+
+Lemma keep_mixed_ext m d p st t (initial : bool) s' :
+  keep_mixed m (parse_param d p st t initial) = Next s' -> ext t (ptape s').
+Proof.
+  destruct (parse_param d p st t initial) as [s1| | |] eqn:E; cbn [keep_mixed]; try discriminate.
+  intros H. injection H as <-. cbn [ptape]. eapply parse_param_ext; eauto.
+Qed.
+
+Lemma scalar_arm_ext (site : N) c d m p t st' s' :
+  match scalar_step d c with
+  | Ok (tok, d') => Next (mkps d' st' m p (tpush t tok))
+  | Err e => Fail e
+  | _ => Crash site
+  end = Next s' -> ext t (ptape s').
+Proof.
+  destruct (scalar_step d c) as [[tok d']| | | |]; try discriminate.
+  intros H. injection H as <-. apply ext_push.
+Qed.
+
+Lemma flag_ext t1 p (m : bool) :
+  is_open t1 p = true \/ (forall x, tget t1 p = Some x -> cont_end x = None) ->
+  ext t1 (if m then
+            match tget t1 p with
+            | Some (TArray e _) => match tset t1 p (TArray e true) with Some x => x | None => t1 end
+            | Some (TObject e _) => match tset t1 p (TObject e true) with Some x => x | None => t1 end
+            | _ => t1
+            end
+          else t1).
+Proof.
+  intros Ho. destruct m; [|apply ext_refl].
+  destruct (tget t1 p) as [x|] eqn:Eg; [|apply ext_refl].
+  destruct x; try apply ext_refl.
+  - destruct (tset t1 p (TArray e true)) eqn:Et; [|apply ext_refl].
+    eapply ext_tset; [exact Et|]. destruct Ho as [Ho|Ho]; [right; exact Ho|]. specialize (Ho _ eq_refl). discriminate.
+  - destruct (tset t1 p (TObject e true)) eqn:Et; [|apply ext_refl].
+    eapply ext_tset; [exact Et|]. destruct Ho as [Ho|Ho]; [right; exact Ho|]. specialize (Ho _ eq_refl). discriminate.
+Qed.
+
+Ltac ext_fin :=
+  let H := fresh "H" in intros H;
+  first [ discriminate H
+        | injection H as <-; cbn [ptape];
+          first [ apply ext_refl | apply ext_push | assumption ] ].
+
+Theorem step_ext s s' : Inv s -> step s = Next s' -> ext (ptape s) (ptape s').
+Proof.
+  destruct s as [d st m p t]. unfold Inv. cbn [pst_ pparent ptape]. intros HI.
+  unfold step. cbv zeta. cbn [pdata pst_ pmixed pparent ptape].
+  destruct (skip_ws_t d) as [d0|].
+  2:{ destruct st; try discriminate. destruct (Nat.eqb p 0); [discriminate|].
+      destruct (Nat.eqb (slot t p) 0); [|discriminate]. destruct (tset _ _ _); discriminate. }
+  destruct d0 as [|c d1]; [discriminate|].
+  destruct st; cbn [inv] in HI.
+  - (* Key *)
+    destruct (beq c 125 || beq c 93).
+    { destruct (restore t (slot t p)) as [st' m'].
+      destruct (Nat.eqb p 0 && Nat.eqb (slot t p) 0) eqn:Ez; [ext_fin|].
+      destruct (tset (tpush t (TEnd p)) p (TObject (length t) m)) as [t'|] eqn:Et; [|discriminate].
+      intros H. injection H as <-. cbn [ptape].
+      eapply ext_trans; [apply ext_push|]. eapply ext_tset; [exact Et|]. right.
+      apply chainrep_open_app; [exact HI|]. eapply chainrep_pnz; [exact HI|]. apply andb_eqb_false. exact Ez. }
+    destruct (beq c 123).
+    { destruct (skip_ws_t d1) as [d2|]; [|discriminate]. rewrite match_b125.
+      assert (G : forall X, match tlast t with
+                   | Some (TUnquoted h) => match tset t (length t - 1) (THeader h) with
+                                           | Some t' => Next (mkps d2 SOpen m p (tpush t' (TArray 0 false)))
+                                           | None => Crash 3023 end
+                   | _ => Fail E_TextErr end = Next X -> ext t (ptape X)).
+      { intros X. destruct (tlast t) as [[]|]; try discriminate.
+        destruct (tset t (length t - 1) (THeader s)) as [t'|] eqn:Et; [|discriminate].
+        intros H. injection H as <-. cbn [ptape]. eapply ext_trans; [|apply ext_push].
+        eapply ext_tset; [exact Et|left; lia]. }
+      destruct d2 as [|c2 d3]; [apply G|]. destruct (N.eqb c2 125); [ext_fin|apply G]. }
+    destruct (beq c 91); [apply keep_mixed_ext|]. apply scalar_arm_ext.
+  - (* Kvs *)
+    destruct (op2 (c :: d1)) as [[[] n]|]; try ext_fin; try (destruct m; ext_fin).
+    destruct (_ && _); [ext_fin|]. destruct (beq c 123); [ext_fin|].
+    destruct (tinsert_before_last t TMixedContainer) as [t'|] eqn:Ei; [|discriminate].
+    intros H. injection H as <-. cbn [ptape]. eapply ext_insert; eauto.
+  - (* ObjVal *)
+    destruct (beq c 123); [ext_fin|]. destruct (beq c 125); [discriminate|]. apply scalar_arm_ext.
+  - (* ArrVal *)
+    destruct HI as [HC HN].
+    destruct (beq c 123); [ext_fin|].
+    destruct (beq c 125).
+    { assert (G : forall grand (is_array : bool) st' m' X,
+                ~ (p = 0 /\ slot t p = 0) ->
+                match tset t p (if is_array then TArray (length t) m else TObject (length t) m) with
+                | Some t' => Next (mkps d1 st' m' grand (tpush t' (TEnd p)))
+                | None => Crash 3036 end = Next X -> ext t (ptape X)).
+      { intros grand is_array st' m' X Hn.
+        destruct (tset t p _) as [t'|] eqn:Et; [|discriminate]. intros H. injection H as <-. cbn [ptape].
+        eapply ext_trans; [|apply ext_push]. eapply ext_tset; [exact Et|]. right.
+        apply chainrep_parent_open; [exact HC|]. eapply chainrep_pnz; eauto. }
+      unfold slot in G.
+      destruct (tget t p) as [x|]; [destruct x|]; cbv iota beta;
+        (match goal with |- context [restore t ?g] => destruct (restore t g) as [st' m'] end;
+         match goal with |- context [Nat.eqb p 0 && ?b] => destruct (Nat.eqb p 0 && b) eqn:Ez end; [discriminate|];
+         first [apply (G _ true)|apply (G _ false)]; apply andb_eqb_false; exact Ez). }
+    destruct (beq c 34 || beq c 64); [apply scalar_arm_ext|].
+    destruct (_ || _); [|apply scalar_arm_ext].
+    assert (G : forall t' (m' : bool) X, ext t t' ->
+              match op2 (c :: d1) with
+              | Some (o, n) => Next (mkps (skipn n (c :: d1)) SArrVal m' p (tpush t' (TOperator o)))
+              | None => Fail E_TextErr end = Next X -> ext t (ptape X)).
+    { intros t' m' X Hx. destruct (op2 _) as [[o n]|]; [|discriminate]. intros H. injection H as <-. cbn [ptape].
+      eapply ext_trans; [exact Hx|apply ext_push]. }
+    destruct m; [apply G; apply ext_refl|].
+    destruct (tlast t) as [x|]; [|discriminate]. destruct (is_scalar_tok x); [|discriminate].
+    destruct (tinsert_before_last t TMixedContainer) as [t'|] eqn:Ei; [|discriminate].
+    apply G. eapply ext_insert; eauto.
+  - (* Open *)
+    destruct HI as (t0 & -> & HN & HC).
+    assert (Hlen : length (t0 ++ [TArray 0 false]) = S (length t0)) by (rewrite app_length; cbn [length]; lia).
+    destruct (beq c 125).
+    { rewrite Hlen. destruct (restore _ p) as [st' m'].
+      destruct (tset _ (length t0) _) as [t'|] eqn:Et; [|discriminate].
+      intros H. injection H as <-. cbn [ptape]. eapply ext_trans; [|apply ext_push].
+      eapply ext_tset; [exact Et|left; lia]. }
+    destruct (beq c 91); [destruct m; [discriminate|apply keep_mixed_ext]|].
+    destruct (beq c 123).
+    { destruct (skip_ws_t d1) as [d2|]; [|discriminate]. rewrite match_b125, Hlen.
+      assert (G : forall X, match tset (t0 ++ [TArray 0 false]) (length t0) (TArray p false) with
+                   | Some t' => Next (mkps (c :: d1) SArrVal false (length t0) t')
+                   | None => Crash 3030 end = Next X -> ext (t0 ++ [TArray 0 false]) (ptape X)).
+      { intros X. destruct (tset _ _ _) as [t'|] eqn:Et; [|discriminate]. intros H. injection H as <-. cbn [ptape].
+        eapply ext_tset; [exact Et|left; lia]. }
+      destruct d2 as [|c2 d3]; [apply G|]. destruct (N.eqb c2 125); [ext_fin|apply G]. }
+    destruct (scalar_step (c :: d1) c) as [[tok d']| | | |]; try discriminate.
+    set (t1 := tpush (t0 ++ [TArray 0 false]) tok).
+    assert (Hf : is_open t1 p = true \/ (forall x, tget t1 p = Some x -> cont_end x = None)).
+    { destruct (Nat.eq_dec p 0) as [->|Hp].
+      - right. intros x Hx. unfold t1, tpush, tget in Hx. rewrite <- app_assoc in Hx.
+        destruct t0 as [|y t0']; [congruence|]. cbn [app nth_error] in Hx. injection Hx as <-.
+        eapply chainrep_head; [exact HC|reflexivity].
+      - left. unfold t1, tpush. rewrite <- app_assoc. apply chainrep_open_app; assumption. }
+    pose proof (flag_ext t1 p m Hf) as Hx2.
+    match goal with |- context [Nat.ltb (length ?T) 2] => set (t2 := T) in * end.
+    assert (L2 : length t2 = S (S (length t0))).
+    { destruct Hx2 as [L _]. unfold t1, tpush in L. rewrite !app_length in L. cbn [length] in L.
+      assert (length t2 <= length t1).
+      { unfold t2. destruct m; [|lia]. destruct (tget t1 p) as [[]|]; try lia.
+        - destruct (tset t1 p (TArray e true)) eqn:Et; [apply tset_spec in Et; lia|lia].
+        - destruct (tset t1 p (TObject e true)) eqn:Et; [apply tset_spec in Et; lia|lia]. }
+      unfold t1, tpush in H. rewrite !app_length in H. cbn [length] in H. lia. }
+    assert (Hx1 : ext (t0 ++ [TArray 0 false]) t2).
+    { eapply ext_trans; [apply ext_push|exact Hx2]. }
+    destruct (skip_ws_t d') as [[|c2 d3]|]; try discriminate.
+    destruct (Nat.ltb (length t2) 2); [discriminate|].
+    assert (G : forall X, tset t2 (length t2 - 2) X = None \/ exists t3, tset t2 (length t2 - 2) X = Some t3 /\ ext (t0 ++ [TArray 0 false]) t3).
+    { intros X. destruct (tset t2 (length t2 - 2) X) as [t3|] eqn:Et; [|left; reflexivity]. right. exists t3. split; [reflexivity|].
+      destruct (tset_spec _ _ _ _ Et) as [L3 N3]. destruct Hx1 as [L1 N1]. split; [lia|].
+      intros i Hi Ho. rewrite Hlen in Hi. rewrite N3 by lia. apply N1; [rewrite Hlen; lia|exact Ho]. }
+    destruct (beq c2 61 || beq c2 62 || beq c2 60).
+    + destruct (G (TObject p false)) as [-> | (t3 & -> & Hx3)]; [discriminate|]. ext_fin.
+    + destruct (G (TArray p false)) as [-> | (t3 & -> & Hx3)]; [discriminate|]. ext_fin.
+Qed.
+
+Lemma done_ext s F : Inv s -> step s = Done F -> ext (ptape s) F.
+Proof.
+  intros HI H. pose proof (step_done_eof _ _ H) as E0.
+  destruct s as [d st m p t]. unfold Inv in HI. cbn [pdata pst_ pparent ptape] in *.
+  unfold step in H. cbv zeta in H. cbn [pdata pst_ pmixed pparent ptape] in H. rewrite E0 in H.
+  destruct st; try discriminate. cbn [inv] in HI.
+  destruct (Nat.eqb p 0) eqn:Ep; [injection H as <-; apply ext_refl|].
+  destruct (Nat.eqb (slot t p) 0); [|discriminate].
+  destruct (tset (tpush t (TEnd p)) p (TObject (length t) false)) as [t'|] eqn:Et; [|discriminate].
+  injection H as <-. eapply ext_trans; [apply ext_push|]. eapply ext_tset; [exact Et|]. right.
+  apply chainrep_open_app; [exact HI|]. apply Nat.eqb_neq. exact Ep.
 Qed.
